@@ -17,6 +17,6 @@ TASK: make ONE small, realistic source change under /tmp/wt_{pid}/xmlschema/ (th
 
 DELIVERABLES (write them inside /tmp/wt_{pid}/_seed/):
  - patch.diff : output of `git -C /tmp/wt_{pid} diff -- xmlschema` (the source change only)
- - demo.py    : a small standalone script (run as `cd /tmp/wt_{pid} && PYTHONPATH=/tmp/wt_{pid} /venv/bin/python _seed/demo.py`) that exits with status 1 and prints what went wrong WITH your change, and exits 0 WITHOUT it (verify both: use `git stash` / `git stash pop` or `git apply -R`/`git apply` on the xmlschema dir to test the unchanged code). The demo must show the property violated through the public API (e.g. is_valid / iter_errors / decode / encode / XMLSchema(...)), not by inspecting internals.
+ - demo.py    : a small standalone script (run as `cd /tmp/wt_{pid} && PYTHONPATH=/tmp/wt_{pid} /venv/bin/python _seed/demo.py`) that exits with status 1 and prints what went wrong WITH your change, and exits 0 WITHOUT it (verify both: use `git diff > p.diff; git apply -R p.diff` / `git apply p.diff` (never `git stash`: the stash is shared by all worktrees) on the xmlschema dir to test the unchanged code). The demo must show the property violated through the public API (e.g. is_valid / iter_errors / decode / encode / XMLSchema(...)), not by inspecting internals.
  - meta.json  : {{"property": "{pid}", "summary": "<one sentence: what was changed>", "needs": "<what is needed for it to manifest>", "files": ["<changed files>"], "tests": "<tail of the pytest output you observed>"}}
 Leave the change APPLIED in the worktree when you finish. There is no network. Reply with a short summary (what you changed, which file/function, what input exposes it, test-suite result). If after several attempts you cannot find a change that passes the suite, say so plainly and describe the closest attempt.''')
